@@ -516,6 +516,11 @@ func (e *Exec) protoSizeOf(m Value) *Term {
 		return t
 	}
 	max := e.param("protoMax", 2)
+	if e.param("protoFixed", 0) == 1 {
+		t := e.tt.Const(64, uint64(max))
+		e.protoSizes[key] = t
+		return t
+	}
 	n := e.freshVar(64, "psize")
 	e.assume(e.tt.Cmp(OUle, n, e.tt.Const(64, uint64(max))))
 	e.protoSizes[key] = n
